@@ -217,6 +217,25 @@ func genC08(tier, out string, sum *Summary) {
 		}
 		emitToModel = true
 	}
+	// an array argument with an element of the wrong type is a type fault wherever the element stands and whatever
+	// the other elements are (a not-a-number value before it does not turn the fault into another category)
+	{
+		emitToModel = false
+		for _, nl := range []any{math.NaN(), float32(math.NaN()), math.Inf(1), json.Number("NaN"), json.Number("-Infinity"), decimal128.NaN(), decimal128.Inf(1), json.Number("1e7000")} {
+			for _, wrong := range []any{"x", nil, true, []any{}, map[string]any{}} {
+				for _, arr := range [][]any{{nl, wrong}, {wrong, nl}, {json.Number("1"), nl, wrong}, {nl, json.Number("1"), wrong, nl}} {
+					for _, e := range []string{"sum(@)", "avg(@)", "sum(a)", "avg(a || a)"} {
+						var d any = arr
+						if strings.Contains(e, "a") && e != "avg(@)" {
+							d = map[string]any{"a": arr}
+						}
+						check(e, d, "CInvalidType", false)
+					}
+				}
+			}
+		}
+		emitToModel = true
+	}
 	// values whose serialisation fails with an error that itself matches an exported category
 	for _, sn := range sentinels {
 		for _, e := range []string{"to_string(@)", "to_string(v)", "[v][*].to_string(@)", "to_string([v])"} {
